@@ -37,9 +37,10 @@ import (
 const modPath = "github.com/cloudwego/gopkg/"
 
 var pkgShort = map[string]string{
-	modPath + "protocol/thrift":   "thrift",
-	modPath + "protocol/ttheader": "ttheader",
-	modPath + "container/strmap":  "strmap",
+	modPath + "protocol/thrift":      "thrift",
+	modPath + "protocol/ttheader":    "ttheader",
+	modPath + "container/strmap":     "strmap",
+	modPath + "protocol/thrift/base": "base",
 }
 
 type fnSpec struct{ pkg, recv, name string }
@@ -95,18 +96,23 @@ var whitelist = []fnSpec{
 	{"thrift", "BufferReader", "skipstr"}, {"thrift", "BufferReader", "ReadFieldBegin"},
 	{"thrift", "BufferReader", "ReadMapBegin"}, {"thrift", "BufferReader", "ReadListBegin"},
 	{"thrift", "BufferReader", "skipType"}, {"thrift", "BufferReader", "Skip"},
+	// the shipped FastCodec structs (base/k-base.go): goto to trailing error labels, fields stored
+	// through the pointer receiver, thrift.Binary.Skip as an external function
+	{"base", "Base", "FastRead"}, {"base", "BaseResp", "FastRead"},
 }
 
 // Coq names that differ from g_<pkg>_<Func> (methods of several types with the same name)
 var coqNameOf = map[fnSpec]string{
 	{"thrift", "SkipDecoderTpl", "Skip"}: "g_thrift_SkipDecoderTpl_Skip",
-	{"thrift", "BufferReader", "next"}: "g_thrift_BufferReader_next", {"thrift", "BufferReader", "skipn"}: "g_thrift_BufferReader_skipn",
+	{"thrift", "BufferReader", "next"}:   "g_thrift_BufferReader_next", {"thrift", "BufferReader", "skipn"}: "g_thrift_BufferReader_skipn",
 	{"thrift", "BufferReader", "ReadI32"}: "g_thrift_BufferReader_ReadI32", {"thrift", "BufferReader", "skipstr"}: "g_thrift_BufferReader_skipstr",
 	{"thrift", "BufferReader", "ReadFieldBegin"}: "g_thrift_BufferReader_ReadFieldBegin",
 	{"thrift", "BufferReader", "ReadMapBegin"}:   "g_thrift_BufferReader_ReadMapBegin",
 	{"thrift", "BufferReader", "ReadListBegin"}:  "g_thrift_BufferReader_ReadListBegin",
 	{"thrift", "BufferReader", "skipType"}:       "g_thrift_BufferReader_skipType",
 	{"thrift", "BufferReader", "Skip"}:           "g_thrift_BufferReader_Skip",
+	{"base", "Base", "FastRead"}:                 "g_base_Base_FastRead",
+	{"base", "BaseResp", "FastRead"}:             "g_base_BaseResp_FastRead",
 }
 
 // library calls that are given a meaning (everything else fails)
@@ -125,6 +131,7 @@ const (
 	libErrorf       = "fmt.Errorf"
 	libErrorsNew    = "errors.New"
 	libPEWrap       = modPath + "protocol/thrift.NewProtocolExceptionWithErr"
+	libPrepend      = modPath + "protocol/thrift.PrependError"
 	identityComment = "identity on the contents"
 )
 
@@ -150,10 +157,13 @@ type fnInfo struct {
 	text                  string
 	params                []*types.Var
 	results               []*types.Var
-	mutated               []bool              // per parameter: threaded (stored into / pointer / mutated map): returned first
-	dropped               []bool              // per parameter: of an untranslatable type and never used in the body: no binder
-	recv                  *types.Var          // receiver that is an abstract object (nil otherwise)
-	abs                   []*absRoot          // abstract objects (receiver first, then parameters), see abstract.go
+	mutated               []bool     // per parameter: threaded (stored into / pointer / mutated map): returned first
+	dropped               []bool     // per parameter: of an untranslatable type and never used in the body: no binder
+	recv                  *types.Var // receiver that is an abstract object (nil otherwise)
+	abs                   []*absRoot // abstract objects (receiver first, then parameters), see abstract.go
+	recvStruct            *types.Var // receiver *T for a struct T of translatable fields: one variable per field
+	recvFields            []*types.Var
+	externs               []*types.Func       // external functions with a given model (transitively), sorted
 	owned                 map[*types.Var]bool // local []byte variables made by make(...) and used only as x[i] / len(x)
 	addrOf                map[*types.Var]bool // local variables whose address is passed to a callee
 	hasLoop, selfRec      bool                // contains a for statement / calls itself
@@ -200,6 +210,8 @@ type fctx struct {
 	loops     []*loopFrame             // enclosing for statements, innermost last
 	brk       []func(depth int) string // what `break` means here, innermost last
 	conts     []func(depth int) string // what `continue` means here, innermost last
+	endK      func(depth int) string   // what follows the last statement of the function
+	exiting   int                      // translating the target of a goto: control does not come back into the loops
 	nloop     int
 	loopCache map[*ast.BlockStmt]*loopFrame // a for statement reached along several paths is one Fixpoint
 }
@@ -661,7 +673,7 @@ func (c *fctx) expr(e ast.Expr) (pre []string, term string) {
 			}
 		}
 		if name, ok := c.fieldVar(x); ok {
-			return nil, c.readVar(name)
+			return c.recvCheck(x.X), c.readVar(name)
 		}
 		c.failf(e, "selector expression %s", types.ExprString(e))
 	case *ast.StarExpr:
@@ -1006,6 +1018,20 @@ func (c *fctx) call(x *ast.CallExpr) (pre []string, terms []string) {
 		p, a := c.expr(x.Args[0])
 		t := c.fresh()
 		return append(p, fmt.Sprintf("do %s <- gpe_wrap %s;", t, a)), []string{t}
+	case full == libPrepend:
+		// thrift.PrependError(text, err): panics on a nil err (err.Error()); otherwise a new error of
+		// the same Thrift exception kind, identified by <code of this call site> + <code of err>
+		if len(x.Args) != 2 {
+			c.failf(x, "%s with %d arguments", full, len(x.Args))
+		}
+		pre = append(pre, c.pureArg(x.Args[0])...)
+		p, a := c.expr(x.Args[1])
+		key := c.errCtorKey(x, full)
+		if _, ok := c.t.ecodes[key]; !ok {
+			c.failf(x, "error value %q is not in the ecode table of coq/Lib/GoSem.v", key)
+		}
+		t := c.fresh()
+		return append(append(pre, p...), fmt.Sprintf("do %s <- gerr_prepend (ecode %q) %s;", t, key, a)), []string{t}
 	case errCtorLib[full]:
 		// a freshly built, non-nil error; its arguments must be free of effects (err.Error() on a
 		// nil err panics: checked)
@@ -1016,6 +1042,9 @@ func (c *fctx) call(x *ast.CallExpr) (pre []string, terms []string) {
 	}
 	if callee := c.t.byObj[fn]; callee != nil {
 		return c.callTranslated(x, callee)
+	}
+	if name, ok := externalFns[full]; ok {
+		return c.callExternal(x, fn, name)
 	}
 	if sel, ok := ast.Unparen(x.Fun).(*ast.SelectorExpr); ok {
 		if root, path := c.absPath(sel.X); root != nil {
@@ -1052,6 +1081,9 @@ func (c *fctx) retTerms(vals []string) string {
 	var ts []string
 	if c.f.recv != nil {
 		ts = append(ts, c.readVar(c.nameOf(c.f.recv)))
+	}
+	for _, fv := range c.f.recvFields {
+		ts = append(ts, c.readVar(c.fieldName(c.f.recvStruct, fv)))
 	}
 	for i, p := range c.f.params {
 		if c.f.mutated[i] {
@@ -1222,6 +1254,9 @@ func (c *fctx) block(depth int, list []ast.Stmt, k func(depth int) string) strin
 		return out
 	case *ast.SwitchStmt:
 		return c.switchStmt(depth, s, rest)
+	case *ast.LabeledStmt:
+		// reached from above, or by a forward goto (branchStmt): the label itself means nothing
+		return c.block(depth, []ast.Stmt{s.Stmt}, rest)
 	case *ast.ForStmt:
 		return c.forStmt(depth, s, rest)
 	case *ast.BranchStmt:
@@ -1242,6 +1277,9 @@ func (c *fctx) block(depth int, list []ast.Stmt, k func(depth int) string) strin
 					continue
 				}
 				obj := c.info.Defs[n].(*types.Var)
+				if isEmptyStruct(obj.Type()) {
+					continue // a value without state
+				}
 				val := c.zero(n, obj.Type())
 				if len(vs.Values) != 0 {
 					if _, _, isMap := mapKV(obj.Type()); isMap {
@@ -1271,7 +1309,7 @@ func (c *fctx) block(depth int, list []ast.Stmt, k func(depth int) string) strin
 		if s.Tok == token.DEC {
 			op = " - 1"
 		}
-		return ind(depth) + fmt.Sprintf("let %s := %s in\n", name, wrapTo(t, "("+cur+op+")")) + rest(depth)
+		return ind(depth) + c.bindLine(s.X, name, wrapTo(t, "("+cur+op+")")) + "\n" + rest(depth)
 	case *ast.AssignStmt:
 		c.topCall = soleCall(s.Rhs)
 		pre := c.assign(s)
@@ -1317,26 +1355,40 @@ func (c *fctx) assign(s *ast.AssignStmt) []string {
 		pre, term := c.binary(be)
 		delete(c.info.Types, be)
 		name := c.lhsName(s.Lhs[0])
-		return append(pre, fmt.Sprintf("let %s := %s in", name, term))
+		return append(pre, c.bindLine(s.Lhs[0], name, term))
 	}
 	// store: buf[i] = e
 	if len(s.Lhs) == 1 && len(s.Rhs) == 1 {
 		if ix, ok := ast.Unparen(s.Lhs[0]).(*ast.IndexExpr); ok {
 			id, ok := ast.Unparen(ix.X).(*ast.Ident)
-			if k, v, isMap := mapKV(c.info.TypeOf(ix.X)); ok && isMap && s.Tok == token.ASSIGN {
+			if k, v, isMap := mapKV(c.info.TypeOf(ix.X)); isMap && s.Tok == token.ASSIGN {
 				// m[k] = v : index and value are evaluated, then the entry is set (panics on a nil map)
-				mv, _ := c.info.Uses[id].(*types.Var)
-				if mv == nil {
-					c.failf(s, "indexed assignment to %s", types.ExprString(ix.X))
-				}
-				if _, isG := c.pkgLevelVar(mv); isG {
-					c.failf(s, "store into the package-level map %s", id.Name)
+				var mname string
+				var chk []string
+				if sel, isSel := ast.Unparen(ix.X).(*ast.SelectorExpr); isSel {
+					n, isField := c.fieldVar(sel)
+					if !isField {
+						c.failf(s, "indexed assignment to %s", types.ExprString(ix.X))
+					}
+					mname, chk = n, c.recvCheck(sel.X)
+				} else {
+					var mv *types.Var
+					if ok {
+						mv, _ = c.info.Uses[id].(*types.Var)
+					}
+					if mv == nil {
+						c.failf(s, "indexed assignment to %s", types.ExprString(ix.X))
+					}
+					if _, isG := c.pkgLevelVar(mv); isG {
+						c.failf(s, "store into the package-level map %s", id.Name)
+					}
+					mname = c.nameOf(mv)
 				}
 				p1, i := c.exprAs(ix.Index, k)
 				p2, val := c.exprAs(s.Rhs[0], v)
-				cur := c.readVar(c.nameOf(mv))
-				name := c.assignVar(c.nameOf(mv))
-				return append(append(p1, p2...), fmt.Sprintf("do %s <- gmap_set %s %s %s;", name, cur, i, val))
+				cur := c.readVar(mname)
+				name := c.assignVar(mname)
+				return append(append(append(p1, p2...), chk...), fmt.Sprintf("do %s <- gmap_set %s %s %s;", name, cur, i, val))
 			}
 			if !ok || !isByteSlice(c.info.TypeOf(ix.X)) {
 				c.failf(s, "indexed assignment to %s", types.ExprString(ix.X))
@@ -1360,7 +1412,7 @@ func (c *fctx) assign(s *ast.AssignStmt) []string {
 		for i, l := range s.Lhs {
 			n := c.lhsName(l)
 			if n != "_" {
-				pre = append(pre, fmt.Sprintf("let %s := %s in", n, terms[i]))
+				pre = append(pre, c.bindLine(l, n, terms[i]))
 			}
 		}
 		return pre
@@ -1381,6 +1433,11 @@ func (c *fctx) assign(s *ast.AssignStmt) []string {
 			}
 		}
 	}
+	if len(s.Lhs) == 1 && len(s.Rhs) == 1 && isEmptyStruct(c.info.TypeOf(s.Lhs[0])) {
+		if cl, ok := ast.Unparen(s.Rhs[0]).(*ast.CompositeLit); ok && len(cl.Elts) == 0 {
+			return nil // x := T{} for a struct without fields: a value without state
+		}
+	}
 	// all right-hand sides are evaluated before any variable is assigned
 	pre, terms := c.exprsAs(s.Rhs, func(i int) types.Type { return c.info.TypeOf(s.Lhs[i]) })
 	if len(s.Lhs) == 1 {
@@ -1388,10 +1445,13 @@ func (c *fctx) assign(s *ast.AssignStmt) []string {
 		if n == "_" {
 			return pre
 		}
-		return append(pre, fmt.Sprintf("let %s := %s in", n, terms[0]))
+		return append(pre, c.bindLine(s.Lhs[0], n, terms[0]))
 	}
 	var names []string
 	for _, l := range s.Lhs {
+		if c.isRecvField(l) {
+			c.failf(s, "parallel assignment to a field of the receiver")
+		}
 		names = append(names, c.lhsName(l))
 	}
 	return append(pre, fmt.Sprintf("let '(%s) := (%s) in", strings.Join(names, ", "), strings.Join(terms, ", ")))
@@ -1553,6 +1613,9 @@ func (t *tr) analyse(f *fnInfo, seen map[*fnInfo]bool) {
 					f.needsFuel = f.needsFuel || callee.needsFuel
 					f.needsRFuel = f.needsRFuel || callee.needsRFuel
 					t.mapAbstract(f, callee, x)
+					for _, e := range callee.externs {
+						f.addExtern(e)
+					}
 					for _, g := range callee.globals {
 						addGlobal(g)
 					}
@@ -1600,7 +1663,7 @@ func (t *tr) translate(f *fnInfo) {
 	}()
 	t.analyse(f, map[*fnInfo]bool{})
 	sig := f.obj.Type().(*types.Signature)
-	if recv := sig.Recv(); recv != nil && f.recv == nil {
+	if recv := sig.Recv(); recv != nil && f.recv == nil && f.recvStruct == nil {
 		st, ok := recv.Type().Underlying().(*types.Struct)
 		if !ok || st.NumFields() != 0 {
 			c.failf(f.decl, "receiver of type %s (only methods of an empty struct value, or of a struct of abstract objects, are translated)", recv.Type())
@@ -1612,7 +1675,7 @@ func (t *tr) translate(f *fnInfo) {
 	if why := t.checkPointerCallSites(f); why != "" {
 		c.failf(f.decl, "pointer parameter: %s", why)
 	}
-	binders := c.absBinders(f)
+	binders := append(c.absBinders(f), c.extBinders(f)...)
 	if f.needsRFuel {
 		binders = append(binders, "(rfuel : nat)")
 	}
@@ -1634,6 +1697,12 @@ func (t *tr) translate(f *fnInfo) {
 	if f.recv != nil {
 		addBinder(c.nameOf(f.recv), f.absOf(f.recv).stName())
 	}
+	if f.recvStruct != nil {
+		addBinder(c.isnilName(), "bool")
+		for _, fv := range f.recvFields {
+			addBinder(c.fieldName(f.recvStruct, fv), c.coqType(f.decl, fv.Type()))
+		}
+	}
 	for i, p := range f.params {
 		if f.dropped[i] {
 			continue
@@ -1652,6 +1721,9 @@ func (t *tr) translate(f *fnInfo) {
 	var rts []string
 	if f.recv != nil {
 		rts = append(rts, f.absOf(f.recv).stName())
+	}
+	for _, fv := range f.recvFields {
+		rts = append(rts, c.coqType(f.decl, fv.Type()))
 	}
 	for i, p := range f.params {
 		if f.mutated[i] {
@@ -1706,12 +1778,13 @@ func (t *tr) translate(f *fnInfo) {
 	if f.selfRec {
 		d0 = 2
 	}
-	body := c.lines(d0, pre) + c.block(d0, f.decl.Body.List, func(depth int) string {
+	c.endK = func(depth int) string {
 		if len(f.results) != 0 {
 			c.failf(f.decl, "control reaches the end of a function with results")
 		}
 		return ind(depth) + c.retTerms(nil) + "\n"
-	})
+	}
+	body := c.lines(d0, pre) + c.block(d0, f.decl.Body.List, c.endK)
 	// err == K is decided on codes: sound when every error value that can reach the comparison
 	// and is not K has another code.  Error values reach it only from this function's own
 	// constants and from its callees (no error-typed parameters, no abstract objects).
@@ -1743,6 +1816,12 @@ func (t *tr) translate(f *fnInfo) {
 			ms = append(ms, fmt.Sprintf("%s.%s = %s", r.v.Name(), m.path, r.mName(m.path)))
 		}
 		notes = append(notes, fmt.Sprintf("%s is an abstract object with state %s, threaded (first components of the result); its methods are given: %s", r.v.Name(), r.stName(), strings.Join(ms, ", ")))
+	}
+	if f.recvStruct != nil {
+		notes = append(notes, fmt.Sprintf("the receiver %s is a pointer to a struct: %s says whether it is nil (then every p.f panics), one binder per field; the final fields are the first components of the result", f.recvStruct.Name(), c.isnilName()))
+	}
+	for _, e := range f.externs {
+		notes = append(notes, fmt.Sprintf("%s is given: parameter %s", shortFull(e.FullName()), externalFns[e.FullName()]))
 	}
 	if f.selfRec {
 		notes = append(notes, "recursive: rfuel bounds the depth of the recursion (Err gfuel when exhausted)")
@@ -1872,10 +1951,23 @@ func header() string {
        a parameter m_<name>_<path>_M : St -> args -> res (St * results), the state is threaded
        through every call and returned first.  This assumes that distinct abstract objects do
        not share state and that nothing else changes the state during the call.  A pointer
-       receiver (*T for a struct T of abstract objects) is assumed non-nil;
+       receiver to a struct of abstract objects is assumed non-nil;
      * thrift.NewProtocolExceptionWithErr(err) is GoSem.gpe_wrap: panics on a nil err, otherwise
        the exception wrapping err, identified by gwrapped c (err is assumed not to be a
        *ProtocolException already; the errors of a bufiox.Reader are not);
+     * a pointer receiver p to a struct with fields of translated types is a flag v_p_isnil and
+       one variable per field; p.f panics when the flag is set (GoSem.gptr_check / gptr_set);
+       the final fields are returned first.  Assumes that nothing else refers to the struct
+       during the call;
+     * goto L, for a label L of the function's outermost block that comes later, is followed by
+       the statements from L to the end of the function (backward gotos are refused);
+     * x := T{} / var x T for a struct T without fields binds nothing; methods of T are called
+       without a receiver argument;
+     * calls of the functions in the table externalFns (thrift.Binary.Skip) are calls of a
+       function parameter x_<name> of the generated definition: sound when the Go function is a
+       deterministic function of its arguments that keeps no state and does not store into them;
+     * thrift.PrependError(text, err) is GoSem.gerr_prepend: panics on a nil err, otherwise an
+       error identified by the code of the call site plus the code of err;
      * fmt.Errorf / errors.New / thrift.NewProtocolException build a non-nil error identified by
        <pkg>.<func>#<constructor>[#k] (k-th call of that constructor in the function when there
        are several); their arguments must be free of effects, except err.Error(), which panics
@@ -2000,6 +2092,16 @@ func main() {
 	}
 	var missing []string
 	names := map[string]bool{}
+	seenName := map[string]bool{}
+	for _, sp := range whitelist {
+		if sp.recv != "" {
+			k := sp.pkg + "." + sp.name
+			if seenName[k] {
+				ambiguousName[k] = true
+			}
+			seenName[k] = true
+		}
+	}
 	for _, sp := range whitelist {
 		f := decls[sp]
 		if f == nil {
